@@ -131,6 +131,12 @@ func (ff *FuncFacts) lin(v ssa.Value, depth int) Lin {
 		}
 	case *ssa.Slice:
 		return ff.linArgs(x, depth+1)
+	case *ssa.Extract:
+		if x.Index == 0 && ff.IdentityCalls != nil {
+			if c, ok := x.Tuple.(*ssa.Call); ok && ff.IdentityCalls[CalleeName(c.Common())] && len(c.Common().Args) >= 1 {
+				return ff.lin(c.Common().Args[0], depth+1)
+			}
+		}
 	case *ssa.Field:
 		// coin.Amount ↦ coin
 		if fieldName(x.X.Type(), x.Field) == "Amount" && isCoinType(x.X.Type()) {
